@@ -617,8 +617,14 @@ func c05Run(t *testing.T, cp *ControlPlane, ud *c05Dialer, s *c05Scn) (op, impl 
 		if ret == dialT {
 			drop = ret
 		}
+		// ... and when the client had already reset, the failing write towards it may force-close the
+		// pair before the buffered prefix is forwarded: same instant, not compared either
+		dropUp := int64(-1)
+		if ret == dialT && s.client.reset {
+			dropUp = ret
+		}
 		impl = fmt.Sprintf("dial=%d armed=%s up=%s upeof=%d cl=%s cleof=%d ret=%d",
-			dialT, c05B(armed), upRecv.str(-1), upRecv.eofT, clRecv.str(drop), clRecv.eofT, ret)
+			dialT, c05B(armed), upRecv.str(dropUp), upRecv.eofT, clRecv.str(drop), clRecv.eofT, ret)
 	})
 	return
 }
